@@ -48,7 +48,9 @@ def run(rep, ctx, tier):
                 c = t.get("callee") or ""
                 if t.get("callee_trait") == T.SPONGE_TRAIT and c.rsplit("::", 1)[-1] in SQUEEZES:
                     n_sq += 1
-                    ok, p = R1.reach_from(ctx, g, [("CALLRES", bid, i)], ctx.sponge_cut(g))
+                    # the squeezed elements themselves, not the length of the returned vector
+                    starts = [("STATE", ("CALLRES", bid, i), ty) for ty in T.SCALARS + ["u8", "bool"]]
+                    ok, p = R1.reach_from(ctx, g, starts, ctx.sponge_cut(g))
                     rep.add("R1", "%s:challenge@%s#%d" % (a.key, R1.short(bid), _ordinal(f, bid, i)), ok,
                             "challenge squeezed at %s %s" % (t["span"], "reaches the outcome" if ok else
                                                                "is never used in the decision"), t["span"])
